@@ -28,18 +28,28 @@ abbrev Start (b : Backend) (disk : Nat → Option Nat) (p g : Nat) : Srv := init
 /-! ### tie to the source: why `qstart` and `reload` are atomic with respect to each other -/
 
 open DnsVerif.Generated.LockFacts in
-/-- Checked by the kernel against the lock table extracted from the CURRENT source: every access
-of `FBDNSDB.Reload` to `h.dnsdb` / `h.dbConfig.Path` (the read of the path, the call on the old DB,
-both writes) happens under `reloadMu` held exclusively, and the only access of a query to `h.dnsdb`
-(`acquireReaderGen`, where the reader pins its instance) under `reloadMu` held shared. Hence no
-`qstart` can fall between the first and the last of a reload's accesses: one model step each. -/
+/-- Checked by the kernel against the lock table extracted from the CURRENT source: outside the
+initialisation functions every write of `h.dnsdb` / `h.dbConfig.Path` happens under `reloadMu` held
+exclusively and every read under `reloadMu` (in whichever function or helper the access lives: the
+rows of a helper list the lock every one of its callers holds); `FBDNSDB.Reload` itself holds it
+exclusively at each of its accesses; the pointer and the path are written, and the path read, under
+the exclusive lock somewhere; the only access of a query to `h.dnsdb` (`acquireReaderGen`, where the
+reader pins its instance) is under `reloadMu` held shared. Hence no `qstart` can fall between the
+first and the last of a reload's accesses: one model step each. -/
 theorem reload_and_acquire_exclude_each_other :
+    ((rows.filter fun r => !r.init ∧ r.write ∧
+        (r.field = "FBDNSDB.dnsdb" ∨ r.field = "FBDNSDB.dbConfig.Path")).all
+      fun r => r.locks.contains ("FBDNSDB.reloadMu", true)) = true ∧
+    ((rows.filter fun r => !r.init ∧ !r.write ∧
+        (r.field = "FBDNSDB.dnsdb" ∨ r.field = "FBDNSDB.dbConfig.Path")).all
+      fun r => r.locks.contains ("FBDNSDB.reloadMu", true) ∨ r.locks.contains ("FBDNSDB.reloadMu", false)) = true ∧
     ((rows.filter fun r => r.fn = "FBDNSDB.Reload" ∧
         (r.field = "FBDNSDB.dnsdb" ∨ r.field = "FBDNSDB.dbConfig.Path")).all
       fun r => r.locks.contains ("FBDNSDB.reloadMu", true)) = true ∧
-    (rows.any fun r => r.fn = "FBDNSDB.Reload" ∧ r.field = "FBDNSDB.dnsdb" ∧ r.write) = true ∧
-    (rows.any fun r => r.fn = "FBDNSDB.Reload" ∧ r.field = "FBDNSDB.dbConfig.Path" ∧ r.write) = true ∧
-    (rows.any fun r => r.fn = "FBDNSDB.Reload" ∧ r.field = "FBDNSDB.dbConfig.Path" ∧ !r.write) = true ∧
+    (rows.any fun r => !r.init ∧ r.field = "FBDNSDB.dnsdb" ∧ r.write) = true ∧
+    (rows.any fun r => !r.init ∧ r.field = "FBDNSDB.dbConfig.Path" ∧ r.write) = true ∧
+    (rows.any fun r => !r.init ∧ r.field = "FBDNSDB.dbConfig.Path" ∧ !r.write ∧
+        r.locks.contains ("FBDNSDB.reloadMu", true)) = true ∧
     ((rows.filter fun r => r.fn = "FBDNSDB.acquireReaderGen" ∧ r.field = "FBDNSDB.dnsdb").all
       fun r => r.locks.contains ("FBDNSDB.reloadMu", false)) = true ∧
     (rows.any fun r => r.fn = "FBDNSDB.acquireReaderGen" ∧ r.field = "FBDNSDB.dnsdb") = true ∧
